@@ -5,7 +5,7 @@ from . import inputs
 PROP = 'C15'
 LEVEL = 'fault_enumeration'
 UBSAN_JUDGED = True
-WALL_CAP = {'quick': 240, 'thorough': 3000}
+WALL_CAP = {'quick': 600, 'thorough': 3600}
 KINDS = ['empty', 'count', 'beyond', 'self', 'ancestor', 'root', 'wrongtype', 'sametype', 'rand']
 RULE = ('cases = (stored file, 1..3 reference fields, corruption kind per field in {empty, =count, beyond count (incl. 0x7FFFFFFF, '
         '0xFFFFFFFE), self, an ancestor on the intact graph, root, a block of another type, arbitrary in-range}); singles: every '
